@@ -61,9 +61,9 @@ Proof.
   intros [->|[c [-> Hc]]] Hr; cbn [race_compact].
   - split; [right; eauto|]. rewrite floor_of_be64 by exact Hr. cbn. lia.
   - rewrite be64_length. cbn [Nat.eqb andb]. rewrite from_be_be64 by exact Hc.
-    destruct (r <? c) eqn:E.
-    + apply N.ltb_lt in E. split; [right; eauto|]. rewrite floor_of_be64 by exact Hc. lia.
-    + apply N.ltb_ge in E. split; [right; eauto|]. rewrite !floor_of_be64 by assumption. lia.
+    destruct (r <=? c) eqn:E.
+    + apply N.leb_le in E. split; [right; eauto|]. rewrite floor_of_be64 by exact Hc. lia.
+    + apply N.leb_gt in E. split; [right; eauto|]. rewrite !floor_of_be64 by assumption. lia.
 Qed.
 
 Lemma iter_race_compact_spec r n : forall rec,
